@@ -108,10 +108,42 @@ def sentinel_schema():
     return s
 
 
+def boundary_schema():
+    """numeric copy-through traits at the limits of their C++ types: message ids beyond 16 bits (message_id_t is
+    32 bit while member_id_t is 16 bit), member ids at 65535, schema id at 2^32-1, versions / since / deprecated
+    beyond 32 bits (version_t is 64 bit), an explicit blockLength, an offset and an array length beyond 32 bits"""
+    T, F, G, D, M, V = namegen.T, namegen.F, namegen.G, namegen.D, namegen.M, namegen.V
+    U64 = 2 ** 64 - 1
+    s = namegen.S("bnd", sid=2 ** 32 - 1, version=U64, desc="limits")
+    s.add(T("messageHeader", "composite", members=[T("blockLength", "type", prim="uint64"), T("templateId", "type", prim="uint32"),
+                                                   T("schemaId", "type", prim="uint32"), T("version", "type", prim="uint64")]))
+    s.add(T("dim", "composite", members=[T("blockLength", "type", prim="uint64"), T("numInGroup", "type", prim="uint32")]))
+    s.add(T("vd", "composite", members=[T("length", "type", prim="uint32"), T("varData", "type", prim="uint8", length=0)]))
+    s.add(T("late", "type", prim="uint32", since=2 ** 32, depr=U64))
+    s.add(T("text", "type", prim="char", length=2 ** 32 + 5, since=U64 - 1))
+    s.add(T("far", "composite", members=[T("a", "type", prim="uint8"), T("b", "type", prim="uint16", offset=2 ** 32 + 1)], since=7))
+    s.add(T("e", "enum", prim="uint64", values=[V("top", str(U64 - 1), since=U64), V("zero", "0")]))
+    s.add(T("st", "set", prim="uint64", values=[V("hi", "63", since=2 ** 33), V("lo", "0")]))
+    for i, mid in enumerate((65535, 65536, 70000, 2 ** 32 - 1)):
+        m = M("M%d" % i, mid, since=[0, 2 ** 32, U64, 1][i], depr=[None, U64, None, 2 ** 40][i],
+              block_length=(2 ** 32 + 16) if i == 1 else None)
+        m.fields.append(F("f", 65535, "late", since=2 ** 32 + i))
+        m.fields.append(F("g", 65534 - i, "e", since=1, depr=U64 - i))
+        if i == 0:
+            m.fields.append(F("s", 1, "st"))
+        gr = G("grp", 65535, "dim", since=2 ** 35, block_length=(2 ** 32 + 2) if i == 2 else None)
+        gr.fields.append(F("x", 65535, "uint8", since=U64))
+        gr.data.append(D("dd", 65535, "vd", since=2 ** 63))
+        m.groups.append(gr)
+        m.data.append(D("d", 65535, "vd", since=2 ** 32, depr=2 ** 32))
+        s.messages.append(m)
+    return s
+
+
 def gen_schemas(rng, tier):
     n = 8 if tier == "quick" else 40
     pkgs = ["ns", "types", "messages", "schema", "tr", "x"]
-    out = [(sentinel_schema(), {"sentinel": 1})]
+    out = [(sentinel_schema(), {"sentinel": 1}), (boundary_schema(), {"boundary": 1})]
     for i in range(n):
         feats = {"all_prims": i % 2 == 0, "max_scalars": 12 if tier == "quick" else 22, "path_clash": i % 4 == 0}
         g = namegen.Gen(rng.fork("schema%d" % i), package=pkgs[i % len(pkgs)], feats=feats)
